@@ -38,7 +38,7 @@ REQUIRED_CULL = [
     "completelyContainsSphere_persp_inside", "completelyContainsSphere_ortho_inside", "completelyContainsBox_persp_inside",
     "completelyContainsBox_ortho_inside", "planesM_persp_unit", "planesM_ortho_unit", "planesM_persp_mirrored",
     "planesM_ortho_mirrored", "isVisiblePoint_persp_mirrored", "isVisiblePoint_ortho_mirrored", "witness_planesM_ortho",
-    "witness_planesM_persp", "witness_box_ortho", "witness_sphere_ortho", "witness_point_ortho", "witness_sphere_persp",
+    "witness_planesM_persp", "witness_tangent_outside_not_visible", "witness_box_ortho", "witness_sphere_ortho", "witness_point_ortho", "witness_sphere_persp",
     "witness_box_persp", "witness_point_persp", "regionPersp_iff_ndc", "regionOrtho_iff_ndc", "corner_mem_regionPersp",
     "corner_mem_regionOrtho", "planesM_ortho_identity_far_lt_near", "planes_persp_eval_inverted",
 ]
@@ -132,19 +132,28 @@ def run_lean_model(chk, lines, name):
     return rc, out, res
 
 
-def run_zmodel(chk, binary):
+def run_zmodel(chk, binary, small=False):
     """Integer depth mapping: the Lean machine-integer model (Model/FrustumZ.lean) is EVALUATED; its integers drive the exact
-    comparison with the real ZToDepth, its tail is run on the operand of the real DepthToZ's cast."""
+    comparison with the real ZToDepth, its tail is run on the operand of the real DepthToZ's cast.
+    small=True: EXHAUSTIVE over all zmin <= zmax in [-8, 8] and all z in [zmin - 20, zmax + 20] (zmin = zmax included: division by zero on both
+    sides), two frusta (perspective, orthographic) x float, double, one depth per case."""
     rng = chk.rng
     triples = []
-    for zmin, zmax in ZRANGES:
-        w = zmax - zmin
-        zs = [zmin, zmin + 1, zmin + w // 2, zmax - 1, zmax, zmax + 1, zmax + 2, zmax + w // 2, zmax + w, zmax + w + 1, zmax + w + 2,
-              zmin - 1, zmin - w // 3]
-        zs += [rng.randint(zmin, zmax) for _ in range(3)] + [rng.randint(zmax + 2, zmax + w + 1) for _ in range(2)]
-        triples += [(z, zmin, zmax) for z in zs]
+    if small:
+        for zmin in range(-8, 9):
+            for zmax in range(zmin, 9):
+                triples += [(z, zmin, zmax) for z in range(zmin - 20, zmax + 21)]
+    else:
+        for zmin, zmax in ZRANGES:
+            w = zmax - zmin
+            zs = [zmin, zmin + 1, zmin + w // 2, zmax - 1, zmax, zmax + 1, zmax + 2, zmax + w // 2, zmax + w, zmax + w + 1, zmax + w + 2,
+                  zmin - 1, zmin - w // 3]
+            zs += [rng.randint(zmin, zmax) for _ in range(3)] + [rng.randint(zmax + 2, zmax + w + 1) for _ in range(2)]
+            triples += [(z, zmin, zmax) for z in zs]
     rc, out, res = run_lean_model(chk, ["A %d %d %d" % t for t in triples], "args")
-    name = ("H:zmodel: ZToDepth = normalizedZToDepth of the Lean model's machine integers (long zdiff, wrap above zmax + 1), bitwise; "
+    name = (("H:zmodel-small: EXHAUSTIVE over all %d triples (z, zmin, zmax) with zmin <= zmax in [-8, 8], z in [zmin - 20, zmax + 20]: " % len(triples)
+             if small else "H:zmodel: ") +
+            "ZToDepth = normalizedZToDepth of the Lean model's machine integers (long zdiff, wrap above zmax + 1), bitwise; "
             "DepthToZ = Lean tail long (x) + zmin on the real operand; float and double")
     if rc != 0 or res is None or len(res) != len(triples):
         chk.oblige(name, "correspondence", False, out[-600:])
@@ -153,7 +162,7 @@ def run_zmodel(chk, binary):
     d = lib.ensure_dir(os.path.join(lib.BUILD, "scratch"))
     argsf = os.path.join(d, "c16z_cases_%d.txt" % os.getpid())
     open(argsf, "w").write("\n".join(res) + "\n")
-    rc, out = lib.sh([binary, "zmodel", str(chk.seed), argsf], timeout=900)
+    rc, out = lib.sh([binary, "zmodel", str(chk.seed), argsf] + (["2", "1"] if small else []), timeout=900)
     os.remove(argsf)
     m = re.search(r"C16Z cases=(\d+) evals=(\d+) judged=(\d+) wide_judged=(\d+) wrap_judged=(\d+) tails=(\d+) failures=(\d+)", out)
     fails = [l for l in out.split("\n") if l.startswith("C16Z-FAIL")]
@@ -176,15 +185,16 @@ def run_zmodel(chk, binary):
     sfails = [l for l in fails if not l.split()[1].startswith("H:")]
     okrun = rc in (0, 1) and m is not None
     chk.oblige(name, "correspondence", okrun and not hfail and not tail_bad, (hfail + tail_bad)[:5] or (None if okrun else out[-400:]))
-    chk.oblige("spec:ZToDepth: value = depth of the normalised position in [zmin, zmax] (long double, `long` width; z > zmax + 1 wraps by zmax - zmin), "
-               "ranges up to 2^40 wide", "correspondence", okrun and not sfails, sfails[:5] or None)
+    chk.oblige(("spec:ZToDepth-small: the same exhaustive small sweep: " if small else "spec:ZToDepth: ") +
+               "value = depth of the normalised position in [zmin, zmax] (long double, `long` width; z > zmax + 1 wraps by zmax - zmin)" +
+               ("" if small else ", ranges up to 2^40 wide"), "correspondence", okrun and not sfails, sfails[:5] or None)
     if m:
         chk.count(int(m.group(2)) + int(m.group(6)), int(m.group(3)) + int(m.group(6)))
-        chk.extra["zmodel"] = {"integer_triples": len(triples), "ZToDepth_exact_comparisons": int(m.group(2)), "judged_against_expectation": int(m.group(3)),
+        chk.extra["zmodel_small_exhaustive" if small else "zmodel"] = {"integer_triples": len(triples), "ZToDepth_exact_comparisons": int(m.group(2)), "judged_against_expectation": int(m.group(3)),
                                "of_which_range_ge_2^31": int(m.group(4)), "of_which_wrapped": int(m.group(5)), "DepthToZ_tail_comparisons": int(m.group(6)),
                                "negative_operands": sum(1 for t in tails if float.fromhex(t[2]) < 0), "failure_keys": keys}
         for a, b in re.findall(r"C16MAX (\S+) (\S+)", out):
-            chk.residues.setdefault("C16Z", {})[a] = float(b)
+            chk.residues.setdefault("C16Z", {})[a + (":small" if small else "")] = float(b)
     seen = set()
     for l in fails:
         key = l.split()[1]
@@ -200,6 +210,127 @@ def run_zmodel(chk, binary):
                  {"case": b, "more": tail_bad[1:5]}, True)
     if not okrun:
         chk.fail("H:zmodel", "c16_corr:zmodel:run", "zmodel harness did not run", {"output": out[-1500:]}, False)
+
+
+# ---------------------------------------------------------------------------
+# C++-side TV on DIRECTED inputs with a leaf-coverage obligation (audit r2 N1): troute.tv draws unstructured inputs, which reach 143 of the
+# 300 leaves of the 27 branching trees (never e.g. the empty-box exits along y or z only, or the 7th comparison of operator==).
+# `sym_c16 tvin` validates the inputs below at double and float and reports the leaves reached and, recomputed from the CURRENT tree, the
+# number of paths on which `length (literal non-zero vector) == 0` is true (unreachable).  The remaining unreachable leaves are counted
+# by an INDEPENDENT enumeration of the decisions, written from the source (not from the tree):
+#   planes (p), perspective: the four side cross products vanish iff  top: r=l or (n=0 and t=0); bottom: r=l or (n=0 and b=0);
+#       right: t=b or (n=0 and r=0); left: t=b or (n=0 and l=0)                       -> 12 reachable patterns of 16;
+#   modifyNearAndFar, perspective: |(l,b,-n)| = 0 iff l=b=n=0; |(r,t,-n)| = 0 iff r=t=n=0; both `normal . dir == 0` tests hold iff n = 0
+#       -> 5 reachable patterns of 16;
+#   projectScreenToRay, orthographic: the direction is (x - x, y - y, -1): its length is never 0 -> 1 of 2.
+import itertools
+def tvin_inputs(rng):
+    L = []
+    add = lambda fn, vals: L.append(fn + " " + " ".join(v if isinstance(v, str) else repr(float(v)) for v in vals))
+    ID = [1,0,0,0, 0,1,0,0, 0,0,1,0, 0,0,0,1]
+    for k in ("persp", "ortho"):
+        for fr in ((1,1,0,1,1,0), (1,2,3,3,1,0), (1,2,0,1,5,5), (1,2,0,1,1,0)):
+            add("Frustum.degenerate_" + k, fr)
+        for fovx in (0, 0.5):
+            add("Frustum.setFov_" + k, (1,2,0,1,1,0, 1, 10, fovx, 0.75, 1.5))
+    for fovx in (0, 0.5):
+        add("Frustum.ctorFov", (1, 10, fovx, 0.75, 1.5))
+    base = [1, 2, -3, 4, 5, -6]
+    for id_ in ("persp_persp", "ortho_ortho", "persp_ortho", "ortho_persp"):
+        add("Frustum.eq_" + id_, base + base)
+        for q in range(6):
+            other = list(base); other[q] += 1
+            add("Frustum.eq_" + id_, base + other)
+    for (n, f, d) in (("1e200", "1e150", "1e-200"), (0.25, 0.25, 0.5), (0.25, 0.75, 0.5), (1, 3, 0.5), (0.25, 0.25, 2), (0.25, 0.75, 2), (1, 3, 2)):
+        add("Frustum.DepthToZExc_persp_3_10", (n, f, -1, 1, 1, -1, d))
+    for (n, f, d) in ((0.25, 0.25, 1), (0.25, 0.75, 1), (1, 3, 1)):
+        add("Frustum.DepthToZExc_ortho_3_10", (n, f, -1, 1, 1, -1, d))
+    add("Frustum.projectScreenToRay_persp", (0, 2, 0, 0, 0, 0, 0.25, -0.5))
+    add("Frustum.projectScreenToRay_persp", (1, 2, -1, 2, 3, -1, 0.25, -0.5))
+    add("Frustum.projectScreenToRay_ortho", (1, 2, -1, 2, 3, -1, 0.25, -0.5))
+    add("Frustum.projectScreenToRay_ortho", (0, 2, 0, 0, 0, 0, 0, 0))
+    add("Frustum.projectPointToScreen_persp", (1, 2, -1, 2, 3, -1, 1, 2, 0))
+    add("Frustum.projectPointToScreen_persp", (1, 2, -1, 2, 3, -1, 1, 2, -3))
+    # planes (p) and modifyNearAndFar: lattice with zeros (zero-length cross products / rays)
+    for (n, l, r, t, b) in itertools.product((0, 1), (0, 1, 2), (0, 1, 2), (0, 1, 2), (0, 1, 2)):
+        add("Frustum.planes_persp", (n, 3, l, r, t, b))
+        add("Frustum.modifyNearAndFar_persp", (n, 3, l, r, t, b, rng.choice((0, 2)), 5))
+    add("Frustum.planes_ortho", (1, 2, 0, 1, 1, 0))
+    add("Frustum.planes_ortho", (0, 0, 0, 0, 0, 0))
+    # FrustumTest: identity camera; objects beyond exactly one plane (the i-th), inside, and (boxes) empty along exactly one axis
+    frs = {"persp": ((1, 2, -1, 1, 1, -1), [(0, 3, -1.5), (3, 0, -1.5), (0, -3, -1.5), (-3, 0, -1.5), (0, 0, -0.5), (0, 0, -3), (0, 0, -1.5)]),
+           "ortho": ((1, 2, 0, 1, 1, 0), [(0.5, 2, -1.5), (2, 0.5, -1.5), (0.5, -1, -1.5), (-1, 0.5, -1.5), (0.5, 0.5, -0.5), (0.5, 0.5, -3), (0.5, 0.5, -1.5)])}
+    for k, (fr, pts) in frs.items():
+        for p in pts:
+            add("FrustumTest.isVisiblePoint_" + k, list(fr) + ID + list(p))
+            for rad in (0.0625,):
+                add("FrustumTest.isVisibleSphere_" + k, list(fr) + ID + list(p) + [rad])
+                add("FrustumTest.completelyContainsSphere_" + k, list(fr) + ID + list(p) + [rad])
+            h = 0.0625
+            bx = [p[0] - h, p[1] - h, p[2] - h, p[0] + h, p[1] + h, p[2] + h]
+            for fn in ("isVisibleBox_", "completelyContainsBox_"):
+                add("FrustumTest." + fn + k, list(fr) + ID + bx)
+        for ax in range(3):
+            bx = [0.25, 0.25, -1.75, 0.75, 0.75, -1.25]
+            bx[ax], bx[ax + 3] = bx[ax + 3], bx[ax]
+            for fn in ("isVisibleBox_", "completelyContainsBox_"):
+                add("FrustumTest." + fn + k, list(fr) + ID + bx)
+    return L
+
+
+def _reachable_by_source():
+    lat = list(itertools.product((0, 1), (0, 1, 2), (0, 1, 2), (0, 1, 2), (0, 1, 2)))
+    planes = set((r == l or (n == 0 and t == 0), t == b or (n == 0 and r == 0), r == l or (n == 0 and b == 0), t == b or (n == 0 and l == 0))
+                 for (n, l, r, t, b) in lat)
+    mod = set((l == 0 and b == 0 and n == 0, r == 0 and t == 0 and n == 0, n == 0, n == 0) for (n, l, r, t, b) in lat)
+    return {"Frustum.planes_persp": len(planes), "Frustum.modifyNearAndFar_persp": len(mod), "Frustum.projectScreenToRay_ortho": 1}
+
+
+def structured_tv(chk, binary, idx_deps):
+    import random
+    lines = tvin_inputs(random.Random(chk.seed * 7919 + 16))
+    cmd = [binary, "tvin"]
+    for d in idx_deps:
+        cmd += ["--idx", d]
+    rc, out = lib.sh(cmd, timeout=900, stdin="\n".join(lines) + "\n")
+    m = re.search(r"TVIN evaluations=(\d+) failures=(\d+)", out)
+    sums = dict((mm.group(1), {"inputs": int(mm.group(2)), "hit": int(mm.group(3)), "paths": int(mm.group(4)), "unreach_literal_length": int(mm.group(5))})
+                for mm in re.finditer(r"TVINSUM (\S+) inputs=(\d+) hit=(\d+) paths=(\d+) unreach_literal_length=(\d+)", out))
+    fails = [l for l in out.split("\n") if l.startswith("TVFAIL") or l.startswith("TVINERR")]
+    unlisted = re.findall(r"TVINUNLISTED (\S+) paths=(\d+)", out)
+    ok = m is not None and int(m.group(2)) == 0 and not fails
+    chk.oblige("tv:c16:directed: extracted trees = real instantiations, bitwise, on %d directed inputs (boxes empty along exactly one axis, frusta equal "
+               "except in one field, objects beyond exactly one plane, zero-length rays / cross products, fired overflow guards of DepthToZExc)" % len(lines),
+               "translation-validation", ok, None if ok else (fails[:5] or out[-500:]))
+    if m:
+        chk.count(int(m.group(1)), int(m.group(1)))
+    for l in fails[:10]:
+        mm = re.match(r"TVFAIL (\S+) (\S+) :: (.*?) :: in=(.*)", l)
+        if mm:
+            chk.fail("tv:c16:directed", "tv:%s:%s" % (mm.group(2), mm.group(1)),
+                     "extracted model of %s disagrees with the real instantiation at %s on a directed input" % (mm.group(2), mm.group(1)),
+                     {"function": mm.group(2), "element_type": mm.group(1), "detail": mm.group(3), "input": mm.group(4).split()}, True)
+    if not ok and not [l for l in fails if l.startswith("TVFAIL")]:
+        chk.fail("tv:c16:directed", "tv:c16:directed", "directed translator validation did not run to completion", {"output": out[-1500:]}, False)
+    src = _reachable_by_source()
+    short = {}
+    for fn, v in sums.items():
+        cand = v["paths"] - v["unreach_literal_length"]
+        expect = src.get(fn, cand)
+        if expect > cand or v["hit"] != expect:
+            short[fn] = {"hit": v["hit"], "expected_reachable": expect, "paths": v["paths"], "unreachable_by_literal_length_rule": v["unreach_literal_length"]}
+    okc = bool(sums) and not short and not unlisted
+    tot_hit, tot_paths = sum(v["hit"] for v in sums.values()), sum(v["paths"] for v in sums.values())
+    chk.oblige("tv:c16:leaves: every REACHABLE leaf of the %d branching trees is compared bitwise with the real code (%d of %d leaves; the other %d need "
+               "length (non-zero literal) == 0 [recomputed from the tree] or an impossible pattern of zero lengths [enumerated from the source])"
+               % (len(sums), tot_hit, tot_paths, tot_paths - tot_hit), "translation-validation", okc, None if okc else {"short": short, "unlisted_trees": unlisted})
+    if not okc:
+        chk.fail("tv:c16:leaves", "tv:c16:leaf-coverage", "the directed TV inputs do not reach every reachable leaf of the extracted trees, or a branching entry is "
+                 "missing from the tvin table of sym_c16.cpp (the tree changed shape: extend tvin_inputs in tools/props/c16.py)",
+                 {"short": short, "unlisted_trees": unlisted}, False)
+    chk.extra.setdefault("tv", {})["c16_directed"] = {"inputs": len(lines), "leaves_hit": tot_hit, "leaves": tot_paths,
+                                                     "per_tree[hit, paths, unreachable_literal_length]": dict((k, [v["hit"], v["paths"], v["unreach_literal_length"]]) for k, v in sorted(sums.items())),
+                                                     "reachable_patterns_enumerated_from_source": src}
 
 
 def run_ft_lattice(chk, binary):
@@ -257,8 +388,10 @@ def run(chk):
     chk.trusted = ["Lean 4.33 kernel; axioms propext/Classical.choice/Quot.sound at most; Mathlib (ordered fields, Real.sqrt, Real.arctan)",
                    "translator harness/sym, validated on every run: TV bitwise at float and double, emitted Lean text at Rat (entries without opaque calls); "
                    "for the FrustumTest entries (opaque planes (p, M)) the emitted Lean text is evaluated at Rat against the REAL FrustumTest<double> on an exact lattice",
-                   "hand transcript harness/sym/c16_hand.h of planes (p, M) (the body with the double (…) / (T) casts removed): bitwise TV at double against the real "
-                   "planes (p, M); at float to rounding (normals and distance).  The transcript of DepthToZ's Zp is no longer trusted: it is PROVED equal to the "
+                   "hand transcript harness/sym/c16_hand.h of planes (p, M): ONE template with the type of the far-corner scale as a parameter; the instantiation with the "
+                   "source's `double` at the cast points is compared BITWISE with the real planes (p, M) at float and double on every run; the extracted instantiation "
+                   "(casts = identities, the only one a symbolic scalar can run) is bitwise TV'd at double and differs from the real float body only by that rounding "
+                   "(measured: normals and distance within 32 eps k).  The transcript of DepthToZ's Zp is no longer trusted: it is PROVED equal to the "
                    "operand of the real body's long (…) cast (Gen.Frustum.DepthToZ_*_3_10, extracted with sym.h's recording `operator long`, TV at double with a "
                    "recording double wrapper harness/sym/sym_c16.cpp C16CapD, itself compared with Frustum<double>::DepthToZ on every TV input)",
                    "hand model lean/ImathVerif/Model/FrustumZ.lean of the machine-integer prologue / epilogue of ZToDepth / DepthToZ (LP64, wrapping long, modular "
@@ -273,8 +406,12 @@ def run(chk):
                        "(near, far != 0 for perspective); planes / culling half: l < r, b < t, 0 < near (perspective; and near < far where stated), near < far "
                        "(orthographic planes (p, M)).  Outside: recorded by theorems planes_persp_eval_inverted (inverted window: side normals inward) and "
                        "planesM_ortho_identity_far_lt_near (the two overloads disagree on the side planes)",
+                       "TOUCHES is read as: the object contains the image of a point of the OPEN frustum (the property's own phrase for the point query is "
+                       "'membership in the interior of that region', and FrustumTest tests `>= 0`): closed tangency from outside is reported NOT visible "
+                       "(negative witness witness_tangent_outside_not_visible), tangency from inside is NOT completely contained",
                        "CAMERA MATRICES are affine (last column 0,0,0,1) with det3 > 0: rigid, uniform and non-uniform positive scale, shear.  EXPLICIT EXCLUSION "
-                       "(property text: 'camera matrices (rigid and scaled)'): mirrored M (det3 < 0) — proved: all six normals of planes (p, M) then point "
+                       "(decided by the property owner; the quantifier 'all camera matrices (rigid and scaled)' is read as orientation preserving: a rigid motion "
+                       "and a positive scale; a reflection is neither): mirrored M (det3 < 0) — proved: all six normals of planes (p, M) then point "
                        "INTO the frustum and FrustumTest::isVisible (point) is false for every point (planesM_*_mirrored, isVisiblePoint_*_mirrored); the real code "
                        "is measured to behave exactly so (obligation mirrored).  planes (p, M) = Plane3::operator* (M) (C15's regenerated Gen.Plane3.mulM44) applied to planes (p), "
                        "plane by plane, normal and distance, for every affine M with det3 != 0 (Props/C16PlaneLink.lean; C15's Gen modules are regenerated and "
@@ -293,8 +430,9 @@ def run(chk):
                 "FRUSTUM region (composition with planesM_*_affine) and are accompanied by evaluated witnesses with both answers (Rat; exact ties on "
                 "axis and slanted planes). TV: structured inputs incl. zeros, signed zeros, extremes. c16_corr: frusta with near over 6 decades, far/near in "
                 "{1.001 … 1e6}, asymmetric/off-axis windows, both kinds, float and double; random rigid+uniform-scale cameras (culling: 2/3 signed "
-                "permutations, 1/3 general rotations); objects on, across (+-1/2 size) and beside (+-1.5, +-3 size) each of the six planes; ambiguous "
-                "(within the rounding margin of a boundary) cases are counted, not judged. zmodel: 13 z-ranges (8…40 bits wide, signed, non-int widths) x "
+                "permutations, 1/3 general rotations; the judged share is obliged); objects on, across (+-1/2 size) and beside (+-1.5, +-3 size) each of the six planes; ambiguous "
+                "(within the rounding margin of a boundary) cases are counted, not judged. zmodel-small: EXHAUSTIVE over zmin <= zmax in [-8,8], z in [zmin-20, zmax+20] (7,089 triples) x 2 frusta x 2 types. "
+                "tv:c16:directed: directed inputs reaching every reachable leaf of the 27 branching trees. zmodel: 13 z-ranges (8…40 bits wide, signed, non-int widths) x "
                 "{ends, mid, zmax+1, zmax+2, wrap region, below zmin, random} x 16 frusta x 2 types. spec: 240 dyadic lattice frusta (+24 inverted / "
                 "negative-near ones for the projection half), exact ties for >= against >")
     bins = troute.build_extractors(chk, [dict(name="sym_leaf", source="sym/sym_leaf.cpp"),
@@ -319,6 +457,7 @@ def run(chk):
         # H-route correspondence of the transcript: bitwise at double against the REAL planes (p, M)
         troute.tv(chk, bins["sym_c16m"], "c16m", ntv, idx_deps=[leaf_idx])
         troute.tv(chk, bins["sym_c16"], "c16", ntv, idx_deps=[leaf_idx, m_idx])
+        structured_tv(chk, bins["sym_c16"], [leaf_idx, m_idx])
         troute.lean_tv(chk, bins["sym_c16m"], "c16m", idx_m, n=6 if chk.thorough else 2, idx_deps=[leaf_idx])
         troute.lean_tv(chk, bins["sym_c16"], "c16", index, n=6 if chk.thorough else 2, idx_deps=[leaf_idx, m_idx])
         for d in index[:6]:
@@ -368,6 +507,7 @@ def run(chk):
             chk.check_theorems(mod, required=REQUIRED_MORE.get(mod, []), search=search)
     if bins.get("c16_corr") and ok_gen:
         run_zmodel(chk, bins["c16_corr"])
+        run_zmodel(chk, bins["c16_corr"], small=True)
         run_ft_lattice(chk, bins["c16_corr"])
 
     if bins.get("c16_corr"):
@@ -396,12 +536,44 @@ def run(chk):
         fl = [l for l in out.split("\n") if l.startswith("C16CORR-FAIL")]
         hits = dict((a, int(b)) for a, b in re.findall(r"C16HIT (\S+) (\d+)", out))
         maxima = dict((a, float(b)) for a, b in re.findall(r"C16MAX (\S+) (\S+)", out))
-        hfail = [l for l in fl if l.split()[1].startswith("H:")]
+        hfail = [l for l in fl if l.split()[1].startswith("H:") and not l.split()[1].startswith("H:planesM:cast-faithful")]
         mfail = [l for l in fl if l.split()[1].startswith("mirroredM:")]
         rfail = [l for l in fl if not l.split()[1].startswith("H:") and not l.split()[1].startswith("mirroredM:")]
         okrun = rc in (0, 1) and m is not None
         chk.oblige("H-route: DepthToZ/ZToDepth = transcript formulas exactly; planes(p,M) = transcript (double bitwise, float normals and distance to rounding)",
                    "correspondence", okrun and not hfail, hfail[:5] or None)
+        # the transcript of planes (p, M) with the far-corner scale in double AS THE SOURCE WRITES IT = the real code, bit for bit, float and double
+        cfail = [l for l in fl if l.split()[1].startswith("H:planesM:cast-faithful")]
+        ncf = dict((t, hits.get("H:planesM:cast-faithful:" + t, 0)) for t in ("float", "double"))
+        chk.oblige("H-route: planes (p, M) = the transcript instantiated with `double` at the source's cast points (c16_planesM<T, double>), BITWISE, at float "
+                   "(%d planes) and double (%d planes); the extracted instantiation (casts = identities) differs from it at float in %d planes of this run"
+                   % (ncf["float"], ncf["double"], hits.get("info:planesM:float:double-scale_changes_the_bits", 0)),
+                   "correspondence", okrun and not cfail and min(ncf.values()) > 0, cfail[:5] or None)
+        # judged share of the culling cases (a harness / environment change that turns most cases "ambiguous" must not stay green); 1/7 of the
+        # point cases sit exactly on a plane by design
+        ms = re.search(r"C16MARGINSCALE (\S+)", out)
+        scale = ms.group(1) if ms else "?"
+        floors = {("point", "float"): 0.65, ("point", "double"): 0.85, ("sphere", "float"): 0.78, ("sphere", "double"): 0.95,
+                  ("box", "float"): 0.78, ("box", "double"): 0.95}
+        shares, low = {}, {}
+        for (q, t), fl_ in floors.items():
+            tot = hits.get("cull:%s:%s" % (q, t), 0)
+            amb = hits.get("cull:%s:ambiguous:%s" % (q, t), 0)
+            sh = (tot - amb) / tot if tot else 0.0
+            shares["%s:%s" % (q, t)] = round(sh, 4)
+            if sh < fl_:
+                low["%s:%s" % (q, t)] = {"judged_share": round(sh, 4), "floor": fl_, "cases": tot}
+        okj = okrun and not low and scale == "1" and not os.environ.get("C16_MARGIN_SCALE")
+        chk.oblige("cull:judged-share: the share of culling cases that is JUDGED (not within the rounding margin of a boundary) is at least "
+                   "65 % (float points; 1/7 lie on a plane by design), 78 % (float spheres, boxes), 85 % / 95 % (double); margin scale = 1 "
+                   "(environment variable C16_MARGIN_SCALE not set)", "residue", okj, None if okj else {"low": low, "C16_MARGIN_SCALE": scale})
+        chk.residues.setdefault("C16", {})["judged_share_of_culling_cases"] = shares
+        chk.residues["C16"]["C16_MARGIN_SCALE"] = scale
+        if not okj:
+            chk.fail("cull:judged-share", "c16_corr:cull:judged-share", "too many culling cases are unjudged, or the margin was scaled through the environment",
+                     {"low": low, "C16_MARGIN_SCALE": scale, "shares": shares}, False)
+        nstrict = dict((t, hits.get("R:depth_roundtrip_judged_strictly(allowance<1,|dz|<=1_required):" + t, 0)) for t in ("float", "double"))
+        chk.residues["C16"]["depth_roundtrip_cases_judged_strictly_within_1"] = nstrict
         mj = sum(v for k, v in hits.items() if k.startswith("mirrored_M:judged"))
         chk.oblige("mirrored: camera matrices with det < 0 (explicit exclusion): the real planes (p, M) / FrustumTest behave as PROVED "
                    "(planesM_*_mirrored: all six normals inward; isVisiblePoint_*_mirrored: the frustum centre is reported invisible), float and double",
@@ -410,12 +582,12 @@ def run(chk):
                    "culling decisions vs extended-precision oracle", "residue", okrun and not rfail, rfail[:5] or None)
         if m:
             chk.count(int(m.group(1)), int(m.group(1)) - sum(v for k, v in hits.items() if "ambiguous" in k))
-        chk.residues["C16"] = {"maxima_in_units_of_the_stated_bound_factor": maxima, "hit_counts": hits,
+        chk.residues.setdefault("C16", {}).update({"maxima_in_units_of_the_stated_bound_factor": maxima, "hit_counts": hits,
                                "bounds": {"corners/depth": "8*eps*k (k: window asymmetry (|r|+|l|)/(r-l), depth (3f+n)/(f-n))",
                                           "round trip": "|dz| <= 1 + 8*eps*zdiff*(f+n)/(f-n)",
                                           "planes(p,M)": "16*eps*kT*kW (kT: translation/size, kW: window extent/size; orthographic: "
                                                          "times (1+f/size)*(f+n)/(f-n))",
-                                          "culling": "margin 4e-6 (float) / 1e-13 (double) relative, times (1+|T|/(s*near))"}}
+                                          "culling": "margin 4e-6 (float) / 1e-13 (double) relative, times (1+|T|/(s*near))"}})
         seen = set()
         for l in fl:
             key = l.split()[1]
